@@ -404,7 +404,7 @@ impl UnitRunner for C04 {
         loop {
           attempt += 1;
           if sess.is_none() {
-            match C04::build(p, alpha[lo..hi].iter().any(|st| st.ik.is_some())) {
+            match C04::build(p, alpha[lo..hi].iter().any(|st| st.ik.is_some()) || p.history.iter().any(|h| h.starts_with("x[k") || h.contains(",k"))) {
               Some(s) => { let h = helpers_snapshot(&s); sess = Some((s, true, h)); }
               None => { out.fail("C04|setup-failed|helpers".into(), format!("{:?}", p.history), "could not define helpers / x".into()); break; }
             }
@@ -458,7 +458,7 @@ impl UnitRunner for C04 {
 impl Check for C04 {
   fn id(&self) -> &'static str { "C04" }
   fn level(&self) -> &'static str { "model_checking" }
-  fn unit_budget(&self, _t: Tier) -> Duration { Duration::from_secs(20) }
+  fn unit_budget(&self, t: Tier) -> Duration { Duration::from_secs(t.pick(120, 600)) }
   fn drive(&mut self, tier: Tier, cfg: &PoolCfg, rep: &mut Report) {
     let shapes: Vec<(usize, usize)> = tier.pick(vec![(1, 3), (3, 1), (2, 2), (2, 3), (3, 2)], vec![(1, 1), (1, 3), (3, 1), (2, 2), (2, 3), (3, 2), (1, 4), (3, 3)]);
     let kinds: Vec<&str> = tier.pick(vec!["f64", "u8"], vec!["f64", "u8", "i64", "string", "bool"]);
